@@ -14,7 +14,7 @@ EXPLANATION = (
     "graph emitted by the real emit(), FlatGraphBuilder::build and the real partition_graph verdict are compared with "
     "the model's emit (exact node order, edge multiset, delay flags, arities, predicted verdict), and engine Partition's executable model of the partitioner (partition_verdict) is run on the model-emitted graph and must agree with the real verdict; generated code of "
     "every accepted flow is compiled by rustc into the harness and driven on random tick scripts. Not a proof of: the "
-    "Rust type system (no typing judgement), output arities for all flows, rustc accepting generated code (sampled). "
+    "Rust type system (no typing judgement), rustc accepting generated code (sampled); the out-degree of cycle `identity` operators is the number of uses of the cycle variable (1 by Rust ownership, checked per corpus flow). "
     "Random well-typed program generation is not done: the corpus is fixed (hand-written typed flows).")
 
 
@@ -22,7 +22,7 @@ class C41(vlib.Spec):
     model_vo = ["theories/HydroB/PC41.vo", "theories/HydroB/XPartition.vo"]
     props_vo = "theories/Props/C41.vo"
     theorems = ["C41_guarded_accepted_partial", "C41_tick_cycles_accepted_partial",
-                "C41_emitter_arities_partial", "C41_emitted_in_arities_partial", "C41_refuted_sync_forward_ref", "C41_refuted_unimplemented"]
+                "C41_emitter_arities_partial", "C41_emitted_in_arities_partial", "C41_emitted_arities", "C41_refuted_sync_forward_ref", "C41_refuted_unimplemented"]
     crate, group, binary = "h_hydro_b", "hydro", "h_hydro_b"
     imports = ("From Coq Require Import List String NArith.\n"
                "From HV Require Import HydroB.Model HydroB.GenOps HydroB.XPartition.\nImport ListNotations.\nOpen Scope string_scope.")
